@@ -121,17 +121,20 @@ CHECKS = {
              'failure; a failed startup aborts the operator with no API use. Bounded exploration.',
         design_ref='5/C11'),
     'C12': dict(
-        technique='property-based testing in exact virtual time, two generated families: (A) 1-4 concurrent requests through kopf\'s API '
+        technique='property-based testing in exact virtual time, three generated families: (A) 1-4 concurrent requests through kopf\'s API '
                   'client with the real credentials vault and re-authentication task against per-request fault scripts, session revocation, '
                   'backoff configurations and login behaviours; oracle = the documented retry/Retry-After/401 policy evaluated on the '
                   'server\'s request log and on what each caller got; (B) closed-loop histories with PATCH fault bursts on one object under '
-                  'generated error_backoffs/error_delays while other objects change; oracle = containment/recovery invariants',
+                  'generated error_backoffs/error_delays while other objects change; (C) the same with unexpected errors inside the '
+                  'processing of one object (its persisted last-handled state damaged and repaired at generated instants); oracle = '
+                  'containment/recovery invariants',
         text='(A) attempts = len(backoffs)+1 for transient faults with gaps >= backoff_i and >= Retry-After (exactly so on an unchanged '
              'session), other 4xx escalate at once, the caller gets the last error; one login per invalidated session however many '
              'requests were hit, retries only on fresh credentials after the login finished, invalidated credentials never reach the '
              'server again (also when the login returns them again). (B) the operator stays up; the failing object is left alone for '
              'error_delays[i] after its i-th failed cycle in a row, not longer, reset by a successful cycle; isolated changes of other '
-             'objects are handled within 0.5 s; after the faults stop the next change is handled and the object converges. Bounded '
+             'objects are handled within 0.5 s; after the faults stop the next change is handled and the object converges. (C) the same four clauses when every cycle on the '
+             'damaged object raises inside the framework before any handler runs. Bounded '
              'exploration.',
         design_ref='5/C12'),
     'C13': dict(
